@@ -644,7 +644,9 @@ def corpus_cases():
     # FIXed parameters in several positions (a fixed THETA is absent from the sd/corr rows -1000000004/-5)
     rd3 = {**rd, "files": ["cov"], "fixed": [False, True, False, False], "rows": allrows, "seed": 9}
     rd4 = {**rd, "files": ["cov", "coi"], "fixed": [True, False, True, False], "rows": {**allrows, "fixedrow": False}, "seed": 10}
-    return [ext, ext2, ext3, gen, gen2, gen3, rd, rd2, rd3, rd4]
+    # no sd/corr row -1000000004 (NaN fallback was indexed by (step, iteration) before df197aa)
+    rd5 = {**rd, "files": ["cov"], "fixed": [False, False, True, False], "rows": {**allrows, "sdcorr": False}, "seed": 11}
+    return [ext, ext2, ext3, gen, gen2, gen3, rd, rd2, rd3, rd4, rd5]
 
 
 def shrink(case):
@@ -1559,12 +1561,7 @@ def run_rundir(case, drv, k, mon, tags):
                     k.append(f"rundir {what}: model all-NaN over {labels}, code {items if items is not None else type(x).__name__} ({info})")
             mest, msd, mse = ans
             cmp_series("parameter_estimates", mest, reported["parameter_estimates"])
-            if msd == "none":
-                x = reported["parameter_estimates_sdcorr"]
-                if not (isinstance(x, pd.Series) and x.isna().all()):
-                    k.append(f"rundir parameter_estimates_sdcorr: model NaN fallback, code {x!r} ({info})")
-            else:
-                cmp_series("parameter_estimates_sdcorr", msd, reported["parameter_estimates_sdcorr"])
+            cmp_series("parameter_estimates_sdcorr", msd, reported["parameter_estimates_sdcorr"])
             plabels = [model_name(lab) for lab, _ in mest]
             if mse in ("noSE", "aborted"):
                 cmp_nan("standard_errors", plabels, reported["standard_errors"])
@@ -1599,6 +1596,8 @@ def run_rundir(case, drv, k, mon, tags):
             mon.append({"cls": "rundir-sdcorr-absent-row-wrong-index",
                         "what": f"{info}: row -1000000004 absent: parameter_estimates_sdcorr is indexed by "
                                 f"{list(getattr(x, 'index', []))[:3]} instead of the parameters {names}"})
+        elif not all(is_nan(v) for _, v in items):
+            mon.append({"cls": "rundir-sdcorr-absent-row-values", "what": f"{info}: row -1000000004 absent but parameter_estimates_sdcorr = {items}"})
     have_se = rowsp["se"] and rowsp["sdcorr_se"]
     if have_se:
         expect("standard_errors", C_SE)
